@@ -10,10 +10,15 @@
   wrapped value flows on (both derived from the same dump);
 * anything not understood raises NotEncodable (the query is then reported inconclusive).
 """
+import os
 import re
+import sys
 from . import mirparse as mp
 from .terms import *
 from .terms import T, Ctx, INT_TYPES, NonLinear
+
+
+TRACE = bool(os.environ.get("MIRSMT_TRACE"))
 
 
 class NotEncodable(Exception):
@@ -98,6 +103,29 @@ class Ref:
         return "Ref(%s.%s%r)" % (self.uid, self.local, self.proj)
 
 
+class VecVal:
+    """a Vec<T> of statically bounded capacity: the first `n` of `items` are its elements (n: int | T)"""
+    __slots__ = ("items", "n")
+
+    def __init__(self, items, n):
+        self.items = list(items)
+        self.n = n
+
+    def __repr__(self):
+        return "VecVal(n=%r, %r)" % (self.n, self.items)
+
+
+class SliceIter:
+    """core::slice::Iter over a VecVal / array: `pos` (concrete) elements already consumed"""
+    __slots__ = ("items", "n", "pos")
+
+    def __init__(self, items, n, pos):
+        self.items, self.n, self.pos = list(items), n, pos
+
+    def __repr__(self):
+        return "SliceIter(pos=%r, n=%r)" % (self.pos, self.n)
+
+
 class Opaque:
     __slots__ = ("tag",)
 
@@ -132,6 +160,11 @@ def merge(c, a, b):
             else:
                 v[k] = a.v.get(k, b.v.get(k))
         return Enum(ite(c, a.d, b.d), v, a.name or b.name)
+    if isinstance(a, VecVal) and isinstance(b, VecVal):
+        k = max(len(a.items), len(b.items))
+        ia = a.items + [None] * (k - len(a.items))
+        ib = b.items + [None] * (k - len(b.items))
+        return VecVal([merge(c, x, y) for x, y in zip(ia, ib)], ite(c, a.n, b.n))
     if isinstance(a, Opaque) or isinstance(b, Opaque):
         return a if isinstance(a, Opaque) else b
     if isinstance(a, Ref) and isinstance(b, Ref):
@@ -176,6 +209,9 @@ class Executor:
         self.models_used = set()
         self._index()
         self.const_cache = {}
+        self.externals = []       # [(compiled regex, fn(ex, st, callee, args) -> value)]: environment supplied by a spec
+        self.opaque_calls = None  # regex: callees treated as uninterpreted (logged, fresh opaque result) for wiring checks
+        self.call_log = []        # [(callee text, args snapshot, result)]
         self.spies = {}           # Fn.name -> list of (args, return value, path condition) recorded at each call
         self.generics = {}        # session-wide instantiation of generic type parameters, e.g. {"T": "i128"}
 
@@ -186,9 +222,14 @@ class Executor:
         self.free = {}       # last segment -> [(full name, Fn)]
         derive_trait = {"cmp": "Ord", "partial_cmp": "PartialOrd", "eq": "PartialEq", "clone": "Clone",
                         "default": "Default", "fmt": "Debug", "assert_fields_are_eq": "Eq", "hash": "Hash"}
+        self.closures = {}   # "src/file.rs:L:C: L:C" -> Fn
         for name, fl in self.fns.items():
             f = fl[0]
             if "{closure" in name:
+                if f.args:
+                    mc = re.search(r"\{closure@([^}]+)\}", f.args[0][1])
+                    if mc:
+                        self.closures[mc.group(1)] = f
                 continue
             m = re.match(r"^(.*?)<impl at (src/[^:]+):(\d+):\d+: \d+:\d+>::(\w+)$", name)
             if m:
@@ -203,7 +244,7 @@ class Executor:
                 tr, ty = hdr
                 self.by_key[(_last_seg(ty), _last_seg(tr) if tr else None, meth)] = f
                 if tr and "<" in tr:
-                    full = _last_seg(tr) + tr[tr.index("<"):].replace(" ", "")
+                    full = _last_seg(tr) + _norm_generics(tr[tr.index("<"):])
                     self.by_key[(_last_seg(ty), full, meth)] = f
                     self.ambiguous.setdefault((_last_seg(ty), _last_seg(tr), meth), []).append(full)
                 continue
@@ -216,7 +257,7 @@ class Executor:
     def lookup(self, ty, trait, meth):
         if trait and "<" in trait:
             base = _last_seg(trait)
-            full = base + trait[trait.index("<"):].replace(" ", "")
+            full = base + _norm_generics(trait[trait.index("<"):])
             # normalise path-qualified generic arguments (core::num::NonZero<u128> -> NonZero<u128>)
             f = self.by_key.get((ty, full, meth))
             if f is not None:
@@ -254,6 +295,13 @@ class Executor:
              if n == name or n.endswith("::" + name) or name.endswith("::" + n)]
         if len(c) != 1:
             raise NotEncodable("free fn %s: %d candidates" % (name, len(c)))
+        return c[0]
+
+    def fn_named(self, suffix):
+        """the unique MIR body whose full name ends with `suffix` (closures included)"""
+        c = [fl[0] for n, fl in self.fns.items() if n.endswith(suffix)]
+        if len(c) != 1:
+            raise NotEncodable("fn named *%s: %d candidates" % (suffix, len(c)))
         return c[0]
 
     # ------------------------------------------------------------ function bodies
@@ -300,7 +348,7 @@ class Executor:
             state.frames, state.pc = fs.frames, fs.pc
             ret = fs.frames[uid].get("_0", UNIT)
             if fn.name in self.spies:
-                self.spies[fn.name].append((list(args), ret, list(state.pc)))
+                self.spies[fn.name].append((self._snap(state, args), ret, list(state.pc)))
             return ret
         conds = [and_(*fs.pc[base_len:]) for fs in finished]
         conds = [self.ctx.name(c, "pc") if isinstance(c, T) else c for c in conds]
@@ -331,8 +379,18 @@ class Executor:
         state.frames = acc_frames
         state.pc = state.pc[:base_len] + [self.ctx.name(or_(*conds), "ret")]
         if fn.name in self.spies:
-            self.spies[fn.name].append((list(args), state.frames[uid].get("_0", UNIT), list(state.pc)))
+            self.spies[fn.name].append((self._snap(state, args), state.frames[uid].get("_0", UNIT), list(state.pc)))
         return state.frames[uid].get("_0", UNIT)
+
+    def _snap(self, state, args):
+        """argument values with references resolved at call time (for spies)"""
+        out = []
+        for a in args:
+            try:
+                out.append(self.deref(state, a))
+            except NotEncodable:
+                out.append(a)
+        return out
 
     def _name_val(self, v):
         if isinstance(v, Int):
@@ -406,7 +464,9 @@ class Executor:
                 args = [self._operand(st, uid, o) for o in ops]
                 try:
                     v = self._call(st, fn, uid, callee, args, depth)
-                except Diverge:
+                except Diverge as dv:
+                    if TRACE:
+                        print("  [diverge] %s in %s: %s" % (callee[:90], fn.name[-60:], dv), file=sys.stderr)
                     return None
                 if ret is None:
                     return None
@@ -888,14 +948,72 @@ class Executor:
         callee = callee.strip()
         for gp, gt_ in self.generics.items():
             callee = re.sub(r"\b%s\b" % re.escape(gp), gt_, callee)
+        for rx, cb in self.externals:
+            if rx.search(callee):
+                return cb(self, st, callee, args)
+        if self.opaque_calls is not None and self.opaque_calls.search(_strip_generics(callee)):
+            res = Opaque("ret:%s#%d" % (_strip_generics(callee), len(self.call_log)))
+            self.call_log.append((_strip_generics(callee), self._snap(st, args), res))
+            return res
         r = models.try_model(self, st, callee, args)
         if r is not models.NO_MODEL:
             self.models_used.add(models.LAST[0])
             return r
         target = self._resolve_callee(callee, args, st)
         if target is None:
+            # provided (default) trait methods of core: `ne` through the impl's `eq`, `lt/le/gt/ge` through `partial_cmp`
+            md = re.match(r"^(<.+ as .+>)::(ne|lt|le|gt|ge)$", _strip_generics(callee))
+            if md:
+                base, meth = md.group(1), md.group(2)
+                orig_prefix = callee[:callee.rindex("::")]
+                if meth == "ne":
+                    t2 = self._resolve_callee(orig_prefix + "::eq", args, st)
+                    if t2 is not None:
+                        v = self._exec_fn(st, t2, args, depth + 1)
+                        if isinstance(v, Bool):
+                            return Bool(not_(v.t))
+                else:
+                    t2 = self._resolve_callee(orig_prefix + "::partial_cmp", args, st)
+                    if t2 is not None:
+                        v = self._exec_fn(st, t2, args, depth + 1)
+                        if isinstance(v, Enum) and 1 in v.v and isinstance(v.v[1][0], Enum):
+                            o = v.v[1][0].d
+                            some = eq(v.d, 1)
+                            f = {"lt": lt(o, 0), "le": le(o, 0), "gt": gt(o, 0), "ge": ge(o, 0)}[meth]
+                            return Bool(and_(some, f))
             raise NotEncodable("unresolved callee `%s` (from %s)" % (callee, fn.name))
         return self._exec_fn(st, target, args, depth + 1)
+
+    def call_path(self, st, callee, args, depth=5):
+        """call `callee` (MIR callee text) from a model: externals, models and MIR bodies are tried as for any call"""
+        class _From:
+            name = "<model>"
+        return self._call(st, _From, 0, callee, list(args), depth + 1)
+
+    def call_closure(self, st, callee_text, env, call_args, depth=5):
+        """invoke the closure whose type `{closure@span}` appears in `callee_text`"""
+        mc = re.search(r"\{closure@([^}]+)\}", callee_text)
+        if not mc or mc.group(1) not in self.closures:
+            raise NotEncodable("closure body not found for " + callee_text[:80])
+        return self._exec_fn(st, self.closures[mc.group(1)], [env] + list(call_args), depth + 1)
+
+    def temp_ref(self, st, value):
+        self.uid += 1
+        st.frames[self.uid] = {"_v": value}
+        return Ref(self.uid, "_v")
+
+    def write_through(self, st, ref, val):
+        """*ref = val for a model that mutates through a `&mut`"""
+        while True:
+            fr = st.frames.get(ref.uid)
+            if fr is None or ref.local not in fr:
+                raise NotEncodable("dangling ref")
+            inner = fr[ref.local]
+            if isinstance(inner, Ref) and not ref.proj:
+                ref = inner
+                continue
+            break
+        fr[ref.local] = self._update(fr[ref.local], list(ref.proj), val)
 
     def deref(self, st, v):
         while isinstance(v, Ref):
@@ -952,11 +1070,16 @@ class Executor:
         return None
 
 
+def _norm_generics(g):
+    """generic argument text with module paths dropped: `<duration::date::DateDuration>` -> `<DateDuration>`"""
+    return re.sub(r"(?:[A-Za-z_][A-Za-z0-9_]*::)+", "", g).replace(" ", "")
+
+
 def _strip_generics(s):
     """remove every `::<...>` turbofish segment"""
     out, i, n = [], 0, len(s)
     while i < n:
-        if s.startswith("::<", i) and not s.startswith("::<impl ", i):
+        if s.startswith("::<", i) and not (s.startswith("::<impl ", i) and _closing(s, i + 2) < n - 1):
             d, j = 0, i + 2
             while j < n:
                 if s[j] == "<":
@@ -971,6 +1094,19 @@ def _strip_generics(s):
         out.append(s[i])
         i += 1
     return "".join(out)
+
+
+def _closing(s, i):
+    """index of the '>' closing the '<' at s[i]"""
+    d = 0
+    for j in range(i, len(s)):
+        if s[j] == "<":
+            d += 1
+        elif s[j] == ">" and s[j - 1] != "-":
+            d -= 1
+            if d == 0:
+                return j
+    return len(s) - 1
 
 
 def _last_seg(s):
